@@ -15,7 +15,7 @@ REPO = os.environ.get('VERIF_REPO', '/repo')
 sys.path.insert(0, os.path.join(ROOT, 'tools'))
 import cxx2c
 
-BUILD = os.path.join(ROOT, 'build')
+BUILD = os.path.join(ROOT, 'build') if REPO == '/repo' else os.path.join(ROOT, 'build', '_scratch', re.sub(r'\W+', '_', REPO))   # runs on scratch copies never share files with runs on /repo
 NPROC = int(os.environ.get('VERIF_JOBS', '16'))
 CBMC_CHECKS = ['--bounds-check', '--pointer-check', '--signed-overflow-check', '--undefined-shift-check',
                '--div-by-zero-check', '--unwinding-assertions', '--no-malloc-may-fail', '--sat-solver', 'cadical']
@@ -246,7 +246,7 @@ def enum_build_configs(env, tier, seed):
         return c
     # hand-picked corner cases: both box faces, cell faces, coincident points, one leaf, all leaves
     fixed = [([0, 8], 1, 0, 4), ([8], 1, 1, 0), ([2, 2, 2], 2, 0, None), ([1, 3, 5][:maxnp], 1, 0, 7), ([0, 2, 4][:maxnp], 3, 1, None),
-             ([7, 1], 2, 1, 1), ([4, 4], 1, 0, 8), ([1, 3, 5, 7][:maxnp], 2, 0, 0), ([6, 8, 0][:maxnp], 1, 1, 3)]
+             ([7, 1], 2, 1, 1), ([4, 4], 1, 0, 8), ([0, 1], 1, 0, None), ([0, 2, 5][:maxnp], 1, 1, 3), ([1], 2, 0, 6), ([1, 3, 5, 7][:maxnp], 2, 0, 0), ([6, 8, 0][:maxnp], 1, 1, 3)]
     for codes, bs, mode, move in fixed:
         cfgs.append(mk(codes, bs, mode, move))
     while len(cfgs) < budget:
@@ -303,6 +303,7 @@ def run_harness(unit, variant, h, tier='quick', keep=False):
             agg['obligations'] += r['obligations']
             for o in r['failed']:
                 o['desc'] = '%s [config %s]' % (o['desc'], c)
+                o['config'] = c
             agg['failed'] += r['failed']
             agg['time'] += r['time']
         agg['time'] = round(agg['time'], 1)
@@ -432,10 +433,10 @@ def run_harness(unit, variant, h, tier='quick', keep=False):
     r['obligations'] = obs
     r['failed'] = failed
     r['n_loop_inv'] = sum(1 for o in obs if 'loop_invariant' in (o['name'] or '') or 'loop invariant' in (o['desc'] or ''))
-    unw = [o for o in failed if '.unwind.' in (o['name'] or '') or 'unwinding assertion' in (o['desc'] or '')]
+    unw = [o for o in failed if '.unwind.' in (o['name'] or '') or 'unwinding assertion' in (o['desc'] or '') or (o['desc'] or '').startswith('model:') or (o['desc'] or '').startswith('harness:')]
     if unw and not h.get('unwind_is_property'):
         # a loop needs more iterations than the harness allows: the bound is too small, nothing is decided
-        r.update(status='infra', reason='unwinding assertion failed (%s at %s:%s): unwind bound too small for this harness' % (unw[0]['name'], unw[0]['file'], unw[0]['line']))
+        r.update(status='infra', reason='unwinding / model-capacity assertion failed (%s at %s:%s): a bound of this harness is too small, nothing is decided' % (unw[0]['name'], unw[0]['file'], unw[0]['line']))
         return r
     vac = [o for o in canaries if o['status'] == 'SUCCESS']
     if vac and not failed:
@@ -563,7 +564,7 @@ def native_replay(unit, variant, r, o):
     inputs = trace_inputs(o, r['harness'])
     d = os.path.join(BUILD, unit['name'], variant_tag(variant))
     exe = os.path.join(d, 'replay.bin')
-    defs = ['-D%s=%s' % (k, v) for k, v in variant.items()]
+    defs = ['-D%s=%s' % (k, v) for k, v in variant.items() if re.fullmatch(r'-?\w+', str(v))] + ['-D%s=%s' % (k, v) for k, v in (o.get('config') or {}).items()]
     rc, so, se, _ = sh(['g++', '-std=c++17', '-O1', '-g', '-fsanitize=undefined,address', '-fno-sanitize-recover=undefined', '-I', os.path.join(REPO, 'src'), '-I', os.path.join(ROOT, 'contracts'), '-I', os.path.join(ROOT, 'replay')] + defs +
                        [os.path.join(ROOT, rp), '-o', exe], timeout=600)
     if rc != 0:
@@ -720,8 +721,9 @@ def check(prop, tier, seed=0):
         'wall_s': round(time.time() - t0, 2),
         'violations': len(vio_out),
     }
-    os.makedirs(os.path.join(ROOT, 'evidence'), exist_ok=True)
-    json.dump(ev, open(os.path.join(ROOT, 'evidence', prop + '.json'), 'w'), indent=1)
+    evdir = os.environ.get('VERIF_EVIDENCE_DIR') or os.path.join(ROOT, 'evidence')   # the override is for runs on scratch copies (seeded changes) only
+    os.makedirs(evdir, exist_ok=True)
+    json.dump(ev, open(os.path.join(evdir, prop + '.json'), 'w'), indent=1)
     print('%s [%s]: %d harness runs, %d obligations, %d discharged, %d known-finding obligations, %d violations, %d infra; %.1fs' %
           (prop, tier, len(results), n_obl, n_ok, len(known), len(vio_out), len(infra), time.time() - t0))
     return rc
